@@ -1,38 +1,38 @@
 // counterexample for c_region::c06_padded_region_contains_footprint (property C06) found by CBMC; replay with
 //   /verif/bin/check --replay /verif/replays/C06/c06_padded_region_contains_footprint.rs
-// repo: {"head": "74aab4444ecdedf8094c67b344fb9660c3cebedc", "dirty": true, "diff_sha256": "02a47d5927d709b1"}
+// repo: {"head": "c93c86cd220de3e0c91643d1355c9698304d6230", "dirty": true, "diff_sha256": "8037d956027d4885"}
 // module: c_region
 /// Test generated for harness `c_region::c06_padded_region_contains_footprint` 
 ///
 /// Check for `assertion`: "assertion failed: has(color, (x >> ulog) + ox as i64, (y >> ulog) + oy as i64)"
 
 #[test]
-fn kani_concrete_playback_c06_padded_region_contains_footprint_17539135773340890414() {
+fn kani_concrete_playback_c06_padded_region_contains_footprint_8090200194356992184() {
     let concrete_vals: Vec<Vec<u8>> = vec![
-        // -7
-        vec![249, 255, 255, 255],
-        // -64
-        vec![192, 255, 255, 255],
+        // -1
+        vec![255, 255, 255, 255],
+        // -1
+        vec![255, 255, 255, 255],
+        // 65536
+        vec![0, 0, 1, 0],
         // 65535
         vec![255, 255, 0, 0],
-        // 65534
-        vec![254, 255, 0, 0],
-        // -5
-        vec![251, 255, 255, 255],
-        // 65469
-        vec![189, 255, 0, 0],
-        // 0
-        vec![0, 0, 0, 0],
-        // 0
-        vec![0],
+        // -1
+        vec![255, 255, 255, 255],
+        // -1
+        vec![255, 255, 255, 255],
+        // 3
+        vec![3, 0, 0, 0],
         // 1
         vec![1],
         // 1
-        vec![1, 0, 0, 0],
+        vec![1],
+        // 3
+        vec![3, 0, 0, 0],
         // -1
         vec![255],
-        // -1
-        vec![255],
+        // -8
+        vec![248],
     ];
     kani::concrete_playback_run(concrete_vals, c06_padded_region_contains_footprint);
 }
